@@ -476,8 +476,23 @@ class Array:
     def __xor__(self, other):
         return ndx.bitwise_xor(self, other)
 
+    def __rand__(self, other):
+        return ndx.bitwise_and(other, self)
+
+    def __ror__(self, other):
+        return ndx.bitwise_or(other, self)
+
+    def __rxor__(self, other):
+        return ndx.bitwise_xor(other, self)
+
     def __lshift__(self, other):
         return ndx.bitwise_left_shift(self, other)
+
+    def __rlshift__(self, other):
+        return ndx.bitwise_left_shift(other, self)
+
+    def __rrshift__(self, other):
+        return ndx.bitwise_right_shift(other, self)
 
     def __rshift__(self, other):
         return ndx.bitwise_right_shift(self, other)
